@@ -283,8 +283,9 @@ HRpDone(r) == /\ hpc[r] = "rp" /\ rp[r] = "done" /\ hpc' = [hpc EXCEPT ![r] = "d
 \* CS [processResult] #1: un-index before writing
 RpUnindex(r) == /\ rp[r] = "unindex" /\ CS([st EXCEPT !.inById = @ \ {r}]) /\ rp' = [rp EXCEPT ![r] = "wcheck"]
   /\ UNCHANGED <<cpc, ready, outcome, ctxDone, sent, npc, rdpc, rdarg, unread, dpc, darg, hpc, released, hctx, isnotif, canpc, clpc, wtpc, wire>>
-\* CS [write]: responses are refused once shutting down (not a writer failure)
-RpWCheck(r) == /\ rp[r] = "wcheck" /\ CS(st) /\ rp' = [rp EXCEPT ![r] = IF ShuttingDown(st) THEN "dec" ELSE "inwriter"]
+\* CS [write]: a response is written as long as the write side works - also during shutdown, when
+\* Close is waiting for this very request; it is refused (not a writer failure) only after a writer failure
+RpWCheck(r) == /\ rp[r] = "wcheck" /\ CS(st) /\ rp' = [rp EXCEPT ![r] = IF st.writeErr THEN "dec" ELSE "inwriter"]
   /\ UNCHANGED <<cpc, ready, outcome, ctxDone, sent, npc, rdpc, rdarg, unread, dpc, darg, hpc, released, hctx, isnotif, canpc, clpc, wtpc, wire>>
 RpWriterReturn(r, o) == /\ rp[r] = "inwriter" /\ o \in Outcomes
   /\ rp' = [rp EXCEPT ![r] = IF o = "broken" THEN "wfail" ELSE "dec"]
